@@ -552,8 +552,12 @@ func runC34(c *Ctx) {
 		okDot, okBrace := false, false
 		EachInstr(ec, func(in ssa.Instruction) {
 			if call, ok := in.(*ssa.Call); ok {
-				if f := call.Call.StaticCallee(); f != nil && f.Name() == "Index" {
+				// first dot: strings.Index(ch, ".") / strings.IndexByte(ch, '.') / strings.Cut(ch, ".")
+				if f := call.Call.StaticCallee(); f != nil && len(call.Call.Args) == 2 && (f.Name() == "Index" || f.Name() == "IndexByte" || f.Name() == "IndexRune" || f.Name() == "Cut") {
 					if sv, isS := constStrOf(call.Call.Args[1]); isS && sv == "." {
+						okDot = true
+					}
+					if bv, isB := constIntOf(call.Call.Args[1]); isB && bv == '.' {
 						okDot = true
 					}
 				}
